@@ -70,6 +70,9 @@ pub enum PAlt {
 	SigBySender,
 	SigAmountPlus1,
 	SigAmountMinus1,
+	/// the recipient signs over another amount AND the reply states that amount in its own amount field
+	SigAmountPlus1Claimed,
+	SigAmountMinus1Claimed,
 	SigOtherExcess,
 	SigOtherSender,
 	RaddrReplaced,
@@ -89,6 +92,8 @@ pub fn palts() -> Vec<PAlt> {
 		SigBySender,
 		SigAmountPlus1,
 		SigAmountMinus1,
+		SigAmountPlus1Claimed,
+		SigAmountMinus1Claimed,
 		SigOtherExcess,
 		SigOtherSender,
 		RaddrReplaced,
@@ -129,6 +134,14 @@ pub fn apply_palt(a: &PAlt, v: &mut SlateV4, e: &PEnv) -> bool {
 		PAlt::SigBySender => with_sig(pp_sign(e.amount, &e.excess, p.saddr, addr_sk(&e.sender.0, e.sender.1))),
 		PAlt::SigAmountPlus1 => with_sig(pp_sign(e.amount + 1, &e.excess, p.saddr, r_sk())),
 		PAlt::SigAmountMinus1 => with_sig(pp_sign(e.amount - 1, &e.excess, p.saddr, r_sk())),
+		PAlt::SigAmountPlus1Claimed => {
+			v.amt = e.amount + 1;
+			with_sig(pp_sign(e.amount + 1, &e.excess, p.saddr, r_sk()))
+		}
+		PAlt::SigAmountMinus1Claimed => {
+			v.amt = e.amount - 1;
+			with_sig(pp_sign(e.amount - 1, &e.excess, p.saddr, r_sk()))
+		}
 		PAlt::SigOtherExcess => with_sig(pp_sign(e.amount, &e.other_excess, p.saddr, r_sk())),
 		PAlt::SigOtherSender => with_sig(pp_sign(e.amount, &e.excess, m_pk, r_sk())),
 		PAlt::RaddrReplaced => Some(PaymentInfoV4 { raddr: m_pk, ..p.clone() }),
